@@ -62,6 +62,7 @@ def write():
         "engines": [
             {"name": "hx", "path": "engines/hx", "serves_properties": ["C01", "C02", "C03", "C04", "C06", "C07", "C08", "C09", "C10", "C12", "C13", "C14", "C17", "C19"], "kind_free_text": "explicit-state exploration of operation histories on the real generated world (own level-synchronous parallel BFS; stateright BFS and a plain DFS as cross-checks)"},
             {"name": "kx", "path": "engines/kx", "serves_properties": ["C14", "C03", "C19"], "kind_free_text": "exhaustive key-space sweeps"},
+            {"name": "wx", "path": "engines/wx", "serves_properties": ["C01", "C05", "C06", "C07", "C14", "C15", "C17", "C19"], "kind_free_text": "the 256-archetype world: every archetype index x populations {single, first+last, every, none} through lookup, conversion tables, Select* enums, multi-archetype queries and world-level event iterators"},
             {"name": "ax", "path": "engines/ax", "serves_properties": ["C11", "C19"], "kind_free_text": "exhaustive access-nesting matrix"},
             {"name": "px", "path": "engines/px", "serves_properties": ["C05", "C15", "C16", "C18"], "kind_free_text": "program-space enumeration through the real macro sources compiled as a library, plus emitted conformance programs for the real rustc"},
             {"name": "cx", "path": "vlib/cx.py", "serves_properties": ["C18", "C19"], "kind_free_text": "compile-fail matrix with sound twins"},
